@@ -44,6 +44,8 @@ SPEC("pane.util", "KeyCache.__call__",
               # retention: the arguments behind every key stay referenced from the cache, so an id()-based key cannot be
               # re-issued to a different object while its entry exists
               (lambda self, args, kwargs, result: refs_inv(self) and mhas(self._refs, callv(self.key_f, args, kwargs)), ["C10"], "retains")],
+     # memoisation is transparent for failures too: nothing is raised that the key function or the wrapped function did not raise
+     raises=(lambda self, args, kwargs, exc: callvraises(self.key_f, args, kwargs) or callvraises(self.inner_f, args, kwargs), ["C10"]),
      frame=["C10"])
 
 
